@@ -14,6 +14,10 @@ out["_doc"] = ("Committed list of genuine defects of Jammy2211/PyAutoArray found
                "prints KNOWN-FINDING for it (restricted to its region predicate, re-confirmed by solver + replay on every run) and reports "
                "anything outside the region as a VIOLATION. status=fixed: repaired by the named 'fix:' commit in /repo - suppresses nothing. "
                "Generated from known_findings.d/<ID>.json by bin/mkknown.py; never written at check time.")
+out["summary_lines"] = [("fixed: property=%s %s %s - %s" % (f["property"], f.get("commit"), f["id"], " ".join(str(f.get("what", "")).split())[:240]))
+                        if f.get("status") == "fixed" else
+                        ("known: property=%s %s - %s" % (f["property"], f["id"], " ".join(str(f.get("what", "")).split())[:240]))
+                        for f in out["findings"]]
 json.dump(out, open(main, "w"), indent=1)
 print("known_findings.json:", len(out["findings"]), "findings;", sum(1 for f in out["findings"] if f.get("status") == "known"), "known")
 for f in out["findings"]:
